@@ -151,7 +151,9 @@ HFMenu == <<
     L(<<C(FALSE, 5, 1)>>),                                \* 15  10.0.0.5/30 (host bits set)
     L(<<W(FALSE, Bracket(a, 2)), W(FALSE, a)>>),          \* 16  [a]:2,a
     H(AddrStr(4), 1),                                     \* 17  |1|s1|HMAC(10.0.0.4)
-    L(<<W(FALSE, <<"[", "a", "]", ":", "?">>), W(TRUE, Bracket(a, 3))>>) \* 18 [a]:?,![a]:3
+    L(<<W(FALSE, <<"[", "a", "]", ":", "?">>), W(TRUE, Bracket(a, 3))>>), \* 18 [a]:?,![a]:3
+    L(<<W(FALSE, <<"1", "0", ".", "0", ".", "0", ".", "?">>)>>),          \* 19 10.0.0.?  (wildcard on the address)
+    L(<<W(FALSE, a), W(TRUE, <<"*", ".", "5">>)>>)                        \* 20 a,!*.5    (negated wildcard on the address)
 >>
 Markers == <<"", "cert-authority", "revoked">>
 Keys    == <<"k1", "k2", "D">>          \* D = a line whose key field is damaged
@@ -305,7 +307,8 @@ OptMenu == <<      \* [n, pl (pattern list), v (value), w (port / env value)]
     [n |-> "no-pty",      pl |-> <<>>, v |-> <<>>,                    w |-> <<>>],              \* 14
     [n |-> "cert-authority", pl |-> <<>>, v |-> <<>>,                 w |-> <<>>],              \* 15
     [n |-> "no-port-forwarding", pl |-> <<>>, v |-> <<>>,             w |-> <<>>],              \* 16
-    [n |-> "from",        pl |-> <<W(FALSE, b), B(FALSE, 1)>>,        v |-> <<>>, w |-> <<>>]   \* 17
+    [n |-> "from",        pl |-> <<W(FALSE, b), B(FALSE, 1)>>,        v |-> <<>>, w |-> <<>>],  \* 17
+    [n |-> "from",        pl |-> <<W(FALSE, <<"*", ".", "4">>)>>,     v |-> <<>>, w |-> <<>>]   \* 18
 >>
 IsFlag(o) == o.n \in {"no-pty", "cert-authority", "no-port-forwarding"}
 
